@@ -1008,6 +1008,13 @@ def cong_script(em: CoqEmit, parsed, orig, all_names):
         den = t[1] if t[0] == "inv" else (t[2] if t[0] == "div" else None)
         if den is not None and den[0] in ("add", "sub", "mul", "neg"):
             classes.setdefault("den", []).append((den, _fingerprint(den, val)))
+    # closed arithmetic sub-terms (e.g. 6.02 * 10^23 against 602000000000000000000000) are matched by exact value
+    orig_closed = {}
+    for t in subtrees(orig):
+        if t[0] in ("num", "dec", "mul", "div", "powi", "neg", "inv", "add", "sub"):
+            v = closed_value(t)
+            if v is not None and (v not in orig_closed or t[0] in ("num", "dec")):
+                orig_closed[v] = t
     steps = []
     memo = {}
 
@@ -1058,6 +1065,14 @@ def cong_script(em: CoqEmit, parsed, orig, all_names):
         key = _freeze(n)
         if key in memo:
             return memo[key]
+        if n[0] in ("mul", "div", "powi", "inv", "add", "sub"):
+            v = closed_value(n)
+            if v is not None and v in orig_closed:
+                text, target = em.t(n), em.t(orig_closed[v])
+                if text != target:
+                    steps.append(f"try (rd_replace {text} {target} ltac:(rd_closed))")
+                memo[key] = ("raw", target)
+                return memo[key]
         n2 = rebuild(n)
         out = n2
         cl = _node_class(n)
